@@ -263,7 +263,13 @@ def run(prog: Program, res: Result) -> None:  # noqa: PLR0912, PLR0915
                         negative = "not RE_PROPERTY.fullmatch" in t
                         in_body = any(stmt is x for b in a.body for x in ast.walk(b))
                         in_else = any(stmt is x for b in a.orelse for x in ast.walk(b))
-                        if (in_body and not negative) or (in_else and negative and " or " not in t):
+                        neg_ok = negative and " or " not in t
+                        if negative and not neg_ok and isinstance(a.test, ast.BoolOp) and isinstance(a.test.op, ast.And) and len(a.test.values) == 2:
+                            # isinstance(v, str) and (not F(v) or X):  the else branch holds  not-a-str  or  (F(v) and not X)
+                            second = a.test.values[1]
+                            disj = second.values if isinstance(second, ast.BoolOp) and isinstance(second.op, ast.Or) else [second]
+                            neg_ok = norm(a.test.values[0]).startswith("isinstance(") and any(norm(d).startswith("not RE_PROPERTY.fullmatch") for d in disj)
+                        if (in_body and not negative) or (in_else and neg_ok):
                             guarded = True
                     if a is ps.node:
                         break
@@ -274,6 +280,42 @@ def run(prog: Program, res: Result) -> None:  # noqa: PLR0912, PLR0915
                 else:
                     res.fail("C12.R4", file=path.file, line=stmt.lineno, qualname=f"{path.name}.__str__", construct=f"bare segment {norm(e, 40)}", message=f"{path.name}.__str__ prints `{var}` without checking it is a plain property name: `['a b']` serialises as `a b`, which parses as something else", what=what)
     res.floor("C12.R4", "bare segment emissions", n_seg, 4)
+    # a root that stands alone must not be a word the lexer/parser reads as something else
+    tok_mod = prog.mod("liquid2/token.py")
+    rw = tok_mod.globals_.get("RESERVED_WORDS")
+    reserved = _literal_str_set(rw)
+    lexer_cls = prog.cls("liquid2.lexer.Lexer")
+    kw = lexer_cls.class_attrs.get("KEYWORD_MAP")
+    kw_words = {k.value for k in kw.keys if isinstance(k, ast.Constant)} if isinstance(kw, ast.Dict) else set()
+    special = set()
+    exm = prog.mod("liquid2/builtin/expressions.py")
+    for fname in ("parse_primitive", "parse_boolean_primitive"):
+        f = exm.functions.get(fname)
+        if f is not None:
+            for c in ast.walk(f.node):
+                if isinstance(c, ast.Compare) and norm(c.left) == "token.value" and isinstance(c.ops[0], ast.Eq) and isinstance(c.comparators[0], ast.Constant) and isinstance(c.comparators[0].value, str):
+                    special.add(c.comparators[0].value)
+    res.floor("C12.R4", "lexer keywords", len(kw_words), 10)
+    what = "token.RESERVED_WORDS covers every lexer keyword and every word the primitive parsers treat specially"
+    missing = sorted((kw_words | special) - (reserved or set()))
+    if reserved is not None and not missing:
+        res.ok("C12.R4", f"{tok_mod.relpath} RESERVED_WORDS", what, f"{len(reserved)} words")
+    else:
+        res.fail("C12.R4", file=tok_mod.relpath, line=1, qualname="RESERVED_WORDS", construct=f"RESERVED_WORDS misses {missing}" if reserved is not None else "RESERVED_WORDS not found", message=f"the printers' reserved-word table {'misses ' + str(missing) if reserved is not None else 'is missing'}: a variable or name spelled like one of these words is printed bare and read back as the keyword/literal", what=what)
+    for path, fname in ((prog.cls("liquid2.builtin.expressions.Path"), "__str__"), (prog.cls("liquid2.token.PathToken"), "__str__")):
+        m = path.methods[fname]
+        what = f"{path.name}.{fname} consults RESERVED_WORDS for a root that stands alone"
+        if any(isinstance(x, ast.Name) and x.id == "RESERVED_WORDS" for x in ast.walk(m.node)):
+            res.ok("C12.R4", f"{m.file}:{m.node.lineno} {path.name}.{fname}", what, "mentions RESERVED_WORDS")
+        else:
+            res.fail("C12.R4", file=m.file, line=m.node.lineno, qualname=f"{path.name}.{fname}", construct=f"{path.name}.{fname} ignores reserved words", message=f"{path.name}.{fname} prints a single-segment path bare whenever it looks like a property name: `['true']`, `['nil']`, `['empty']` are printed as the literals true / nil / empty", what=what)
+    idf = exm.functions.get("identifier_str")
+    if idf is not None:
+        what = "identifier_str quotes reserved words"
+        if any(isinstance(x, ast.Name) and x.id == "RESERVED_WORDS" for x in ast.walk(idf.node)):
+            res.ok("C12.R4", f"{idf.file}:{idf.node.lineno} identifier_str", what, "mentions RESERVED_WORDS")
+        else:
+            res.fail("C12.R4", file=idf.file, line=idf.node.lineno, qualname="identifier_str", construct="identifier_str ignores reserved words", message="identifier_str prints a name spelled like a keyword bare: `{% macro 'if' %}` / `{% cycle 'true': … %}` do not parse back", what=what)
 
     # ------------------------------------------------------------------ R5 whitespace-control markers
     res.rule("C12.R5", "every tag / output / comment opening printed by a __str__ carries a whitespace-control marker pair taken from a token (wc[0] after the opener, wc[1]/wc[-1] before the closer)")
@@ -729,6 +771,16 @@ def _grouping_rule(prog: Program, res: Result) -> None:  # noqa: PLR0912, PLR091
             res.fail("C12.R10", file=rel, line=sm.node.lineno if sm else ci.node.lineno, qualname=f"{cname}.__str__", construct=f"{cname}: grouping lost for {len(bad[cname])} tree shape(s)", message=f"{len(bad[cname])} operator tree(s) rooted at {cname} are printed without the parentheses the parser needs, e.g. {ex_}: str(template) re-parses to a different condition", what=what)
 
 
+def _literal_str_set(e: ast.AST | None) -> set[str] | None:
+    if e is None:
+        return None
+    if isinstance(e, ast.Call) and e.args:
+        e = e.args[0]
+    if isinstance(e, (ast.List, ast.Tuple, ast.Set)) and all(isinstance(x, ast.Constant) and isinstance(x.value, str) for x in e.elts):
+        return {x.value for x in e.elts}
+    return None
+
+
 def _collect_helpers(prog: Program, roots: list, out: dict) -> None:
     work = list(roots)
     seen: set[str] = set()
@@ -856,6 +908,27 @@ def _string_writer_rule(prog: Program, res: Result) -> None:  # noqa: PLR0912
         else:
             res.fail("C12.R11", file=ex.relpath, line=m.node.lineno if m else 1, qualname=f"{cname}.__str__", construct=f"{cname}.__str__ does not escape its text", message=f"{cname}.__str__ prints string text without the Liquid escaping helper: quotes, backslashes or `${{` in the text change the meaning of the printed literal", what=what)
     res.stats["C12.R11.repr_sites"] = n_sites
+    # the escaping helper is only handed strings (it calls str methods on its argument)
+    from sa.types import TypeApprox
+
+    T = TypeApprox(prog)
+    esc_names = {h.name for h in helpers.values() if any(isinstance(c, ast.Call) and isinstance(c.func, ast.Attribute) and c.func.attr == "replace" for c in ast.walk(h.node)) and len(h.params()) == 1}
+    n_esc_calls = 0
+    for f in printers + list(helpers.values()):
+        for c in ast.walk(f.node):
+            if isinstance(c, ast.Call) and isinstance(c.func, ast.Name) and c.func.id in esc_names and len(c.args) == 1:
+                a = c.args[0]
+                if isinstance(a, ast.Call) and isinstance(a.func, ast.Name) and a.func.id in esc_names:
+                    continue
+                n_esc_calls += 1
+                t = T.of(f, a)
+                site = f"{f.file}:{c.lineno} {f.qualname}"
+                what = f"`{norm(c, 50)}` is handed a str"
+                if t is not None and {x.strip() for x in t.split("|")} <= {"str", "Markup", "Identifier"}:
+                    res.ok("C12.R11", site, what, f"declared / narrowed to {t}")
+                else:
+                    res.fail("C12.R11", file=f.file, line=c.lineno, qualname=f.qualname, construct=f"{f.qualname}: {norm(c, 50)} with a value that may not be a str", message=f"`{norm(a, 30)}` ({t or 'undeclared'}) is passed to the string escaper, which calls str methods on it: an integer segment (`{{{{ [0] }}}}`) or nested path makes str(template) raise AttributeError", what=what)
+    res.floor("C12.R11", "calls of the escaping helper", n_esc_calls, 3)
 
 
 def _number_writer_rule(prog: Program, res: Result) -> None:
